@@ -20,6 +20,33 @@ from .values import (SymRaise, PathEnd, SStr, DType, Opaque, LibFn, BoundMethod,
                      Iter, CatList, StackList, UNDEF, ModuleRef, StarAbstract, KeyedLists, KeyedListRef)
 
 
+_SK = itertools.count()
+
+
+def skolemize_hyp(c):
+    """a hypothesis of the form  not (forall x. B)  or  exists x. B  becomes  not B[sk]  /  B[sk]  with fresh
+    constants (skolemisation of a top-level existential: equisatisfiable, and the fact is then quantifier-free - it
+    reaches the in-path solver and the light queries)"""
+    try:
+        if not isinstance(c, z3.ExprRef):
+            return c
+        neg = False
+        q = c
+        if z3.is_not(c) and z3.is_quantifier(c.arg(0)) and c.arg(0).is_forall():
+            q, neg = c.arg(0), True
+        elif z3.is_quantifier(c) and c.is_exists():
+            q = c
+        else:
+            return c
+        n = q.num_vars()
+        consts = [z3.Const('sk!%d!%s' % (next(_SK), q.var_name(i)), q.var_sort(i)) for i in range(n)]
+        body = z3.substitute_vars(q.body(), *reversed(consts))
+        out = z3.Not(body) if neg else body
+        return skolemize_hyp(z3.simplify(out)) if (z3.is_quantifier(out) or z3.is_not(out)) and False else out
+    except Exception:
+        return c
+
+
 class Obligation:
     def __init__(self, name, hyps, goal, kind, path, meta=None):
         self.name = name
@@ -116,6 +143,7 @@ class Ctx:
             return
         if c is False:
             raise PathEnd()
+        c = skolemize_hyp(c)
         self.pc.append(c)
         # the in-path feasibility solver only sees quantifier-free facts (fewer facts = more
         # paths explored, never fewer: sound); obligations always carry the full path condition
